@@ -145,6 +145,9 @@ func init() {
 		"strconv.Quote":       extQuote,
 
 		"(*github.com/jf-tech/go-corelib/ios.LineNumReportingCsvReader).LineNum": extCsvLineNum,
+		"(*strings.Replacer).Replace": extReplacerReplace,
+		"internal/stringslite.Clone": func(e *Exec, _ *frame, _ token.Pos, _ *ssa.Function, a []Value) Value { return a[0] },
+		"strings.Clone":              func(e *Exec, _ *frame, _ token.Pos, _ *ssa.Function, a []Value) Value { return a[0] },
 		"runtime.KeepAlive": extNop,
 		"runtime.GC":        extNop,
 		"os.Getenv":         func(e *Exec, _ *frame, _ token.Pos, _ *ssa.Function, _ []Value) Value { return StrV{} },
@@ -1074,4 +1077,38 @@ func extCsvLineNum(e *Exec, fr *frame, pos token.Pos, fn *ssa.Function, args []V
 	csvT := recvT.Underlying().(*types.Struct).Field(0).Type().(*types.Pointer).Elem()
 	idx := structFieldIndex(csvT, "numLine")
 	return (*q).(StructV)[idx]
+}
+
+// (*strings.Replacer).Replace: naive semantics of the generic replacer — at each position
+// the first old string (in argument order) that matches is replaced.
+func extReplacerReplace(e *Exec, fr *frame, pos token.Pos, fn *ssa.Function, args []Value) Value {
+	p, ok := args[0].(PtrV).single()
+	if !ok {
+		panic(unsupported("strings.Replacer through multi-target pointer"))
+	}
+	recvT := fn.Signature.Recv().Type().(*types.Pointer).Elem()
+	oldnew := (*p).(StructV)[structFieldIndex(recvT, "oldnew")].(SliceV).data
+	s := args[1].(StrV).b
+	var out []*Term
+	i := 0
+	for i < len(s) {
+		matched := false
+		for k := 0; k+1 < len(oldnew); k += 2 {
+			o := oldnew[k].(StrV).b
+			if len(o) == 0 || i+len(o) > len(s) {
+				continue
+			}
+			if e.decide(e.matchAt(s, o, i)) {
+				out = append(out, oldnew[k+1].(StrV).b...)
+				i += len(o)
+				matched = true
+				break
+			}
+		}
+		if !matched {
+			out = append(out, s[i])
+			i++
+		}
+	}
+	return StrV{out}
 }
